@@ -161,6 +161,42 @@ func ruleDET2(c *Ctx) []Obligation {
 		obs = append(obs, Obligation{Key: "process-level write: " + k, Pos: c.pos(r.Pos), Verdict: VIOL,
 			Detail: fmt.Sprintf("parsing/printing can write %s (via %s): state that outlives the call makes results depend on what ran before, and races with concurrent parses", what, r.Path)})
 	}
+	// process-level state kept behind the synchronisation primitives of the standard library
+	// (sync.Pool, sync.Map, sync.Once, atomics on a package-level variable): the stores happen
+	// inside the standard library, so they are recognised at the call
+	order, parent := e.reach(roots)
+	for _, fn := range order {
+		for _, b := range fn.Blocks {
+			for _, in := range b.Instrs {
+				ci, ok := in.(ssa.CallInstruction)
+				if !ok {
+					continue
+				}
+				cc := ci.Common()
+				callee := cc.StaticCallee()
+				if callee == nil || callee.Pkg == nil {
+					continue
+				}
+				cp := callee.Pkg.Pkg.Path()
+				if cp != "sync" && cp != "sync/atomic" {
+					continue
+				}
+				for _, a := range cc.Args {
+					g := globalBehind(a)
+					if g == nil || g.Pkg == nil || !c.isOurs(g.Pkg.Pkg.Path()) {
+						continue
+					}
+					k := fmt.Sprintf("%s via %s.%s in %s", g.String(), cp, callee.Name(), shortFn(fn))
+					if seen[k] {
+						continue
+					}
+					seen[k] = true
+					obs = append(obs, Obligation{Key: "process-level state: " + k, Pos: c.pos(in.Pos()), Verdict: VIOL,
+						Detail: fmt.Sprintf("parsing/printing uses the package-level variable %s through %s.%s (via %s): an object pool, cache or once-flag shared by all calls in the process lets one parse see what another left behind, and makes results depend on history and on concurrent parses", g.String(), cp, callee.Name(), pathTo(fn, parent))})
+				}
+			}
+		}
+	}
 	obs = append(obs, Obligation{Key: "no process-level writes", Verdict: OK,
 		Detail: fmt.Sprintf("%d entry points, %d reachable functions scanned for stores to globals / through globals", len(roots), nfn)})
 	return obs
